@@ -930,6 +930,12 @@ impl MachineState {
                     }
                 }
                 (HeapCellValueTag::Str, s) => {
+                    // only '.'/2 is a list cell: no other structure matches a string.
+                    if cell_as_atom_cell!(self.heap[s]).get_name_and_arity() != (atom!("."), 2) {
+                        self.fail = true;
+                        break;
+                    }
+
                     let cell = self.store(self.deref(self.heap[s+1]));
 
                     if let Some(d) = cell.as_char() {
